@@ -55,13 +55,16 @@ def get_twin(mutator_key=None, mutator=None, **kw):
 
 
 def explore(cfg, harness, twin=None, on_leaf=None, witness_fn=None, witness_stride=0,
-            max_paths=None, deadline_s=None, solver_timeout_ms=60000, seed=0, prefix=None, logic=None):
+            max_paths=None, deadline_s=None, solver_timeout_ms=60000, seed=0, prefix=None, logic=None,
+            purify_div=False):
     """run one configuration; returns a picklable result dict"""
     import zlib
     from symx import core
     t0 = time.time()
     eng = core.Engine(seed=seed, solver_timeout_ms=solver_timeout_ms, max_paths=max_paths, logic=logic,
                       deadline=(t0 + deadline_s) if deadline_s else None)
+
+    eng.purify_div = purify_div
 
     def leaf(e, res):
         if on_leaf is not None:
